@@ -30,7 +30,7 @@ ASSUMPTIONS = [
     "precondition of IDENTIFY respected by construction: C non-empty, C subset of T, G[C] has a single district, topo is a topological order of G",
 ]
 BUDGET = {
-    "quick": dict(examples=150, shards=16, seconds=200),
+    "quick": dict(examples=100, shards=16, seconds=200),
     "thorough": dict(examples=1500, shards=16, seconds=2400),
 }
 ESSENTIAL_LABELS = {t: ["answered-proper-subset", "fail", "lemma4", "lemma1", "lemma4-all-districts"] for t in ("quick", "thorough")}
@@ -50,7 +50,7 @@ def _case(draw, gs):
 
 def strategy(tier):
     return st.one_of(
-        _case(gen.admgs(2, 6, bi_densities=(2, 4, 6))),
+        _case(gen.with_odd_names(gen.admgs(2, 6, bi_densities=(2, 4, 6)), 6)),
         _case(gen.admgs(3, 6, bi_densities=(3, 5, 7), di_densities=(3, 5, 7))),
         _case(gen.embedded_admgs(2)),
     )
